@@ -21,6 +21,7 @@ from framework import Case
 from impl import dltype
 
 PROP = "C16"
+GENERATED = []  # generated files this check's tie depends on
 LEAN_MODULES = ["Properties.C16"]
 LEVEL = "proof"
 RULE = (
@@ -282,6 +283,48 @@ def observe_class(case) -> str:
     return "differs " + ",".join(diffs) if diffs else "same"
 
 
+class Outer:
+    """decorated classes defined inside another class (their qualified name is `Outer.X`)"""
+
+
+MOD.Outer = Outer
+
+
+def observe_nested(case) -> str:
+    kind = case.meta["kind"]
+    ns = MOD.__dict__
+    if kind == "nt":
+        src = "class Outer:\n    @dltype.dltyped_namedtuple()\n    class Rec(typing.NamedTuple):\n        x: Annotated[np.ndarray, A]\n        n: int = 3\n"
+    else:
+        src = "class Outer:\n    @dltype.dltyped_dataclass()\n    @dataclasses.dataclass(frozen=True)\n    class Rec:\n        x: Annotated[np.ndarray, A]\n        n: int = 3\n"
+    exec(compile(src, "<c16n>", "exec"), ns)  # noqa: S102
+    R = ns["Outer"].Rec
+    diffs = []
+    inst = R(MOD.GOOD, 5)
+    if not R.__qualname__.endswith("Outer.Rec"):
+        diffs.append("qualname")
+    try:
+        back = pickle.loads(pickle.dumps(inst))
+        if type(back) is not R or back.n != 5:
+            diffs.append("pickle-roundtrip")
+    except Exception as e:  # noqa: BLE001
+        diffs.append(f"pickle({type(e).__name__})")
+    import copy
+
+    try:
+        c = copy.deepcopy(inst)
+        if c.n != 5:
+            diffs.append("deepcopy")
+    except Exception as e:  # noqa: BLE001
+        diffs.append(f"deepcopy({type(e).__name__})")
+    try:
+        R(MOD.BAD, 5)
+        diffs.append("violating-construction-accepted")
+    except dltype.DLTypeError:
+        pass
+    return "differs " + ",".join(diffs) if diffs else "same"
+
+
 def class_cases():
     out = []
     for opts in DC_OPTS:
@@ -302,3 +345,5 @@ def custom(run, tier):
     cs = func_cases(tier, run.rng)
     run.observe(cs, observe_func, expect, "decorated function differs from its undecorated twin")
     run.observe(class_cases(), observe_class, expect, "decorated class differs from its undecorated twin")
+    nested = [Case(f"TWINNESTED\t{k}", "nested", {"kind": k}) for k in ("nt", "dc")]
+    run.observe(nested, observe_nested, expect, "a decorated class defined inside another class misbehaves")
